@@ -478,13 +478,18 @@ impl H263State {
                 self.reference_picture = None;
             }
 
-            let this_tr = next_decoded_picture.as_header().temporal_reference;
-            self.last_picture = Some(this_tr);
-            if !next_decoded_picture
+            let is_disposable = next_decoded_picture
                 .as_header()
                 .picture_type
-                .is_disposable()
-            {
+                .is_disposable();
+
+            //Disposable pictures are filed under a key that no temporal
+            //reference (at most 10 bits) can take, so that they can never
+            //replace the reference picture they were predicted from.
+            let this_tr = next_decoded_picture.as_header().temporal_reference
+                | if is_disposable { 0x8000 } else { 0 };
+            self.last_picture = Some(this_tr);
+            if !is_disposable {
                 self.reference_picture = Some(this_tr);
             }
 
